@@ -423,3 +423,5 @@ def _h3_variant(prop, job_name):
             q['thorough'] = q['quick']; q.pop('thorough_only', None)
             CHECKS[prop]['jobs'].append(q); return
 _h3_variant('C03', 'restat_with_deps'); _h3_variant('C10', 'restat_with_deps'); _h3_variant('C01', 'restat_then_deps')
+for _j in CHECKS['C19']['jobs']:
+    if _j['name'] == 'restat_then_deps_leftovers': _j['reach'] = ['compared']      # (no output of this shape lives in a directory: the dry run cannot be stopped by a failing mkdir)
